@@ -121,6 +121,8 @@ def random_decide(tier, seed, n=None):
             total += d
             steps.append({"op": "tick", "d": d})
             probe = rand_probe(r)
+            if r.random() < 0.08:  # a caller that writes its header fields into the map under lower-case keys
+                probe["rawkeys"] = 2
             if r.random() < 0.06:  # the same directives on a request the cache never answers from its store
                 if r.random() < 0.5:
                     probe["range"] = 1
@@ -141,14 +143,14 @@ def random_decide(tier, seed, n=None):
 
 # (values 4 and 5 of X-A are two different byte strings that are not UTF-8)
 SELS = [[0, 0, 0, 0], [0, 0, 1, 0], [0, 0, 2, 0], [0, 0, 1, 1], [0, 0, 1, 2], [1, 0, 1, 0], [2, 1, 0, 0], [0, 0, 3, 0], [0, 0, 2, 3],
-        [0, 0, 4, 0], [0, 0, 5, 0], [0, 0, 4, 2]]
+        [0, 0, 4, 0], [0, 0, 5, 0], [0, 0, 4, 2], [0, 0, 6, 0]]   # (value 6 of X-A is two field lines, "1" and "2")
 VARYS = [([], 0), ([2], 0), ([2, 3], 0), ([3], 0), ([3, 2], 0), ([0], 0), ([0, 1, 2], 0), ([], 1)]
 
 
 def rand_vary_ans(r, short=True):
     v, vs = r.choice(VARYS)
-    return ans(ccp=1, ma=r.choice([0, 3, 5, 100, 100, 1000]) if short else 100, vary=v, vs=vs, etag=r.choice([0, 1, 2]),
-               swr=r.choice([NONE, NONE, 20]), lm=r.choice([NONE, 50]), sp=r.randrange(0, 2))
+    return ans(ccp=1, ma=r.choice([0, 3, 5, 100, 100, 1000]) if short else 100, vary=v, vs=vs, etag=r.choice([0, 1, 2, 7, 8]),
+               swr=r.choice([NONE, NONE, 20]), lm=r.choice([NONE, 50]), sp=r.randrange(0, 2), vsp=r.choice([0, 0, 1, 2, 3]))
 
 
 def random_vary(tier, seed, n=None):
@@ -162,7 +164,7 @@ def random_vary(tier, seed, n=None):
         for _ in range(r.randrange(3, 9)):
             req = rq(u=r.choice([0, 0, 0, 1]), sel=list(r.choice(SELS)), selsp=r.randrange(0, 3), usp=r.randrange(0, 6),
                      fl=["no-cache"] if r.random() < 0.1 else [],
-                     rawkeys=1 if i % 5 == 2 else 0)   # a caller that writes to the header map directly, with lower-case keys
+                     rawkeys=(1 if i % 5 == 2 else 2 if i % 5 == 3 else 0))   # a caller that writes to the header map directly, with lower-case keys
             a1 = rand_vary_ans(r)
             a2 = rand_vary_ans(r)
             if r.random() < 0.35:
@@ -389,9 +391,9 @@ def client_conditionals(tier):
     answers 304 to it or sends a new representation; a later plain GET must get a full response"""
     out = []
     j = 0
-    for et, lm in ((0, NONE), (1, NONE), (0, 100), (1, 100)):
+    for et, lm in ((0, NONE), (1, NONE), (0, 100), (1, 100), (7, NONE), (8, NONE)):   # 7: not a well-formed entity-tag, 8: a weak one
         for stale in (0, 1):
-            for cond in ({"inm": 9}, {"inm": 1}, {"ims": 50}, {"ims": 100, "inm": 9}):
+            for cond in ({"inm": 9}, {"inm": 1}, {"ims": 50}, {"ims": 100, "inm": 9}, {}):
                 for how in ("304", "full"):
                     for nocache in (0, 1):
                         stored = ans(ccp=1, ma=5, etag=et, lm=lm)
